@@ -12,6 +12,7 @@ from geometer.base import EQ_TOL_ABS, EQ_TOL_REL, Tensor, TensorCollection
 from geometer.exceptions import IncompatibleShapeError, LinearDependenceError, NotCoplanar
 from geometer.operators import angle, dist, harmonic_set
 from geometer.point import (
+    LineCollection,
     LineTensor,
     Plane,
     PlaneTensor,
@@ -279,6 +280,21 @@ class SegmentTensor(PolytopeTensor):
         """
         if isinstance(other, (PolygonTensor, Polyhedron)):
             return other.intersect(self)
+
+        other_line = other._line if isinstance(other, SegmentTensor) else other
+        if isinstance(other_line, LineTensor) and self.dim > 2:
+            coplanar = self._line.is_coplanar(other_line)
+            if not np.any(coplanar):
+                # skew lines have no point in common
+                return []
+            if not np.all(coplanar):
+                # only the coplanar pairs of the collections can be intersected
+                a = np.broadcast_to(self.array, coplanar.shape + self.shape[-2:])[coplanar]
+                b = np.broadcast_to(other.array, coplanar.shape + other.shape[-2:])[coplanar]
+                if isinstance(other, SegmentTensor):
+                    return SegmentCollection(a, copy=False).intersect(SegmentCollection(b, copy=False))
+                b_covariant = other.tensor_shape[0] > 0
+                return SegmentCollection(a, copy=False).intersect(LineCollection(b, covariant=b_covariant, copy=False))
 
         if isinstance(other, SegmentTensor):
             result = meet(self._line, other._line, _check_dependence=False)
